@@ -78,6 +78,11 @@ def mechRng (m : Mech) (s : Seed) : RngSrc :=
 /-- tool / estimator preamble: `random_state = check_random_state(random_state)` -/
 def hop (s : Seed) : Seed := (crs s false).asSeed
 
+/-- `n` nested preambles (tool inside estimator inside estimator …) -/
+def hops : Nat → Seed → Seed
+  | 0, s => s
+  | n + 1, s => hop (hops n s)
+
 inductive Kind where
   | noise        -- a draw the privacy guarantee relies on (additive noise, randomised selection)
   | structural   -- data-independent choice (initial centres, tree structure, row shuffling, derived seeds)
@@ -132,8 +137,10 @@ def treePlan (s : Seed) : List Draw :=
   let t := hop s
   [direct .treeStructure .structural t, viaMech .PermuteAndFlip t, ⟨.emptyLeaf, .noise, mechRng .PermuteAndFlip t⟩]
 
-/-- seed handed to a sub-problem: `None` when the estimator is unseeded, otherwise an int drawn from its generator -/
-def subSeed (s : Seed) : Seed := if s = .none then .none else .int
+/-- seed handed to a sub-problem: `None` when the estimator is unseeded, otherwise an int drawn from its generator
+(when the estimator's own preamble `check_random_state(random_state)` raises, nothing is handed on: `other`) -/
+def subSeed (s : Seed) : Seed :=
+  if s = .none then .none else if crs s false = .error then .other else .int
 
 def plan : Entry → Seed → List Draw
   | .mech m, s => [viaMech m s]
